@@ -20,7 +20,10 @@ MANIFEST = {
             "hypotheses). Extracted model vs implementation with the library's random draws replaced by the same bytes.",
     "note": "scrypt, AES-256-ECB, SHA-256, NFC, UTF-8, the secp256k1 group and the P2PKH address function are oracles "
             "(hashlib, pycryptodome, unicodedata, own EC arithmetic); laws used: AES dec(enc) = id on 16-byte blocks, output "
-            "lengths, Z-module laws of the group.",
+            "lengths, Z-module laws of the group. LINKED: the *_concrete theorems instantiate the P2PKH address function "
+            "(Base58Check over hash160 of the serialised point, net version read from the Bip38Addr source) and UTF-8 (the RFC 3629 "
+            "model of C19) -- both run inside the extracted model in the link.bip38c_* entries; ripemd160 and the uncompressed "
+            "point serialisation become oracles instead.",
     "technique": "Coq proof + generated-constant obligations (slice bounds taken from the function bodies by AST) + "
                  "extracted-model differential run + direct recomputation from the BIP text",
     "ref": "7/C13",
